@@ -77,8 +77,11 @@ def main():
     if not ok:
         broken.append('model/extraction: ' + why[:800])
     exes = {}
+    from concurrent.futures import ThreadPoolExecutor
+    with ThreadPoolExecutor(max_workers=8) as ex:
+        futs = {v: ex.submit(C.build_harness, v, log, P.defines.get(v, ())) for v in P.harness_variants}
     for v in P.harness_variants:
-        exe, why = C.build_harness(v, log, P.defines.get(v, ()))
+        exe, why = futs[v].result()
         if exe is None:
             broken.append(f'harness build ({v}) failed against the current tree: ' + why[-800:])
         exes[v] = exe
